@@ -10,7 +10,7 @@ SCHEMES = ["http://", "https://", "HTTP://", "", "//", "ftp://", "://", "http:/"
 AUTHS = ["", "u@", "u:p@", "u p@"]
 HOSTS = ["a.com", "a.notatld", "localhost", "1.2.3.4", "999.1.1.1", "a_b.com", "-a.com", "a.c", "a.co", "xn--tlrama-bvab.fr",
          "télérama.fr", "a.com.", "localhost.foo", "a", "[::1]", "A.COM", "a..com", "a.xn--p1ai", "a.рф", "localhostx.com",
-         "a.b.notatld", "1.2.3.4.com", ""]
+         "a.b.notatld", "1.2.3.4.com", "", "1.2.3.4.notatld"]
 PORTS = ["", ":8", ":80", ":8080", ":65535", ":123456"]
 TAILS = ["", "/", "/a", "/a b", "/a\tb", "?q", "#f", "/a\nb", "/é", "/a\x7fb", "?q=\x1fx", "#f\x85"]
 WRAPS = ["", "trail-space", "lead-nl", "text-after", "nl-text-after"]
@@ -96,9 +96,9 @@ def evaluate_is_url(case):
 FRAGS = ["foo", " ", ",", ".", "!", "(", ")", "…", "«", "»", "[", "](", "[label](", "[http://a.com](http://b.com)",
          "[http://a.com/](  http://b.com )", "[http://a.com]()", "[a.com](b.com)", "http://a.com", "https://a.com/p?q=1#f",
          "a.com", "www.a.com/x", "http://a.com/x.", "http://a.com/(x)", "\n", "ftp://a.com", "//a.com", "http://",
-         "[http://a.com", "](http://b.com)", "http://a.notatld/x", "http://a.com/é…"]
+         "[http://a.com", "](http://b.com)", "http://a.notatld/x", "http://a.com/é…", "\u202f", "\u3000"]
 CORE = ["foo", " ", ".", "[", "](", ")", "[http://a.com/](  http://b.com )", "[http://a.com]()", "http://a.com", "https://a.com/p?q=1#f",
-        "//a.com", "](http://b.com)", "…", "[http://a.com"]
+        "//a.com", "](http://b.com)", "…", "[http://a.com", "\u202f"]
 PROTO_RE = re.compile(r"^[a-zA-Z]{0,64}:?//")
 
 
